@@ -905,6 +905,7 @@ fn run_tests(
             }
 
             let default_language = parser.language().map(|language| (*language).clone());
+            let correction_count = corrected_entries.len();
             for (i, language_name) in attributes.languages.iter().enumerate() {
                 if !language_name.is_empty() {
                     let language = opts
@@ -1101,6 +1102,8 @@ fn run_tests(
                     parser.set_language(default_language)?;
                 }
             }
+            // A test that names several languages is still one entry of the corpus file.
+            corrected_entries.truncate(correction_count + 1);
             test_summary.test_num += 1;
         }
         TestEntry::Group {
